@@ -104,6 +104,12 @@ Scenarios ==
     \cup [kind : {"stat"}, stat : {"king", "r0", "r1", "f2", "fst", "pi_xy"}, shape : {<<1, 9>>, <<9, 1>>, <<3, 3>>, <<9>>, <<3, 3, 1>>, <<1, 3, 3>>, <<3, 4>>, <<4, 3>>}]
     \* empty spectra whose zero-length axis is not the last one, next to absurdly long axes: every tool and option on them
     \cup [kind : {"shapeop"}, shape : AbsurdShapes, format : {"text", "npy"}, op : ShapeOps]
+    \* `stat --precision' takes one value or one value PER statistic: values at and beyond the bound of the formatting machinery
+    \* (65535) in either form and in every position, lists of the wrong length, empty and negative entries
+    \* (a length mismatch must be an error; anything else may succeed or fail, never panic)
+    \cup [kind : {"statprec"}, stats : {"sum", "pi,theta", "sum,pi,theta,d-tajima"},
+          precs : {"65535", "65536", "70000", "4294967296", "18446744073709551616", "2,65535", "2,65536", "65536,2", "70000,70000",
+                   "1,2,3,65536", "65536,1,2,3", "1,2,3", "1,2,3,4,5", "", "2,,3", "-1", "2,-1"}, header : BOOLEAN]
     \* an npy header that cannot be parsed and holds a two-byte character at byte offset k (version 3.0 headers are UTF-8): whatever
     \* is quoted, cut or padded in the diagnostic, no offset may matter
     \cup [kind : {"npyjunk"}, k : 0..130, version : {1, 2, 3}]
@@ -137,6 +143,7 @@ Expect(s) ==
       [] s.kind = "manypops" -> IF s.project = "tiny" THEN "ok" ELSE "err"
       [] s.kind = "badaxes" -> "err"
       [] s.kind = "npyjunk" -> "err"
+      [] s.kind = "statprec" -> IF s.precs \in {"1,2,3", "1,2,3,4,5"} /\ s.stats # "sum" THEN "err" ELSE "ok_or_err"
       [] s.kind = "threads" -> "ok"            \* any --threads value behaves like any other (C12)
       [] OTHER -> "ok_or_err"
 
